@@ -304,6 +304,11 @@ def run(chk, prog):
     reeval(chk, prog, "C01", lambda i: i["rule"] == "R2" and "KickMap" in i["site"], "R6", "R6-kick-centre", 6)
     # ---- R7: "converting it to physical units for output is always defined": index bounds of the look-ups in appendTracks (C17 R7) -------
     reeval(chk, prog, "C17", lambda i: i["rule"] == "R7", "R7", "R7-track-lookups", 2)
+    # ---- R8: the particle and the charge around it are moved by the same displacement field ------------------------------------------------------
+    # applyTo() interpolates _offset, apply() uses the table built from it: every change of _offset is followed, on every path, by a rebuild
+    # of the table (decided by kickmodel.offset_table_sync; shared with C01/C02/C05/C08)
+    from . import kickmodel as K8
+    K8.offset_table_sync(chk, prog, "R8")
     chk.notes.append("C15: clamping of every assigned coordinate on every CFG path of every applyTo overrider reachable from main, direction agreement of "
                      "particle and grid displacement, damping fixed point. NOT decided: centroid coincidence, ensemble statistics.")
 
